@@ -143,6 +143,8 @@ def run(tier):
         rule_return_codes(rep, funcs)
         rule_policy(rep, funcs)
         hyps = None if tier == "thorough" else ("TRIDIMENSIONAL",)
+        if "VerifPlain" in unit:
+            continue    # the corpus entry without optional hooks (no prediction operator): the documented K[0] table assumes they exist
         rule_k0_tables(rep, funcs, "mfront::gb::integrate", hyps)
         for w in WRAPPERS:
             if any(f.qname == w for f in funcs):
